@@ -21,8 +21,12 @@ SPEC = Spec(
          "metrics 0-4 metrics x 0-6 points of the five types + empty type; profiles with 0-5 samples; empty containers at every "
          "level; resource/scope/metric identity fields and schema URLs mostly non-empty; padding 0..200 bytes incl. 127/128, "
          "16370/16384 in thorough) through the real MergeSplit, one or two requests, items and bytes sizer, max in "
-         "{0, 1..total+1, small byte limits 1..60}, cachedSize warm or cold; non-trivial = a resource identity appears in two "
-         "output requests (cut inside a resource). batcher: the real defaultBatcher (bytes sizer) in a synctest bubble with requests "
+         "{0, 1..total+1, small byte limits 1..60}, cachedSize warm or cold; 1 case in 5 is a zero-length case (30/70/100 % of the "
+         "elements completely empty, up to 14 per scope, metrics without name/type: data points and metrics encode to 0 bytes, log "
+         "records / spans to their 4 / 6+ byte minimum); every c%97==5 case ties DeltaSize(n) to the growth of the real encoded "
+         "parent at every varint boundary incl. n=0; non-trivial = a resource identity appears in two "
+         "output requests (cut inside a resource). batcher: the real defaultBatcher (configured sizer type bytes, items with one-item units, or items with indivisible "
+         "multi-sample units = profiles, ItemsCount = samples) in a synctest bubble with requests "
          "made of 1-4 indivisible units packed FIFO by a MergeSplit that follows the real contract, min_size in {0,1,3,5,10}, "
          "max_size = min_size + {0,0,1,2,5} or 0, 1-10 labels (consume, 1 in 8 without items / finish a random in-flight flush "
          "with outcome ok, plain error or shutdown-classified error / timer flush) then Shutdown and completion of every flush in "
